@@ -193,6 +193,13 @@ class WrapRun:
         if d:
             self.fail("autoreset_vs_reference", "extras_differ" + ("_next_obs" if "next_obs" in d[0] else ""),
                       f"{where} client {i} (LAST={last}): {d[:3]}")
+        if not last and ws.cfg.get("drive"):
+            try:  # reach in the play-to-win / work configurations: which rare transitions happen inside the wrappers
+                for n in ws.adapter.events(util.to_np(s), a, util.to_np(exp_s), e_ts, ws.env, ws.cfg) or []:
+                    if any(k in str(n) for k in ("deliver", "fruit_eaten", "picked_up", "put_down", "solved")):
+                        self.stats.probe(f"ev:{ws.adapter.name}:{n}")
+            except Exception:  # noqa: BLE001
+                self.stats.probe("events_hook_error")
         if not last:
             d = util.tree_diff(o_s, util.to_np(exp_s))
             if d:
@@ -591,7 +598,7 @@ def run_task(prop: Any, task: Dict[str, Any]) -> Dict[str, Any]:
         if deadline is not None and time.time() > deadline and i >= 2:
             break
         rng = util.sub_rng(task["seed"], mode, task["env"], cfg["id"], shard, i)
-        nseg = int(rng.integers(6, 25)) if not cfg.get("drive") else int(rng.integers(120, 200))
+        nseg = int(rng.integers(6, 25)) if not cfg.get("drive") else int(rng.integers(*cfg.get("drive_segments", (120, 200))))
         resets_before = stats.probes.get("auto_resets", 0)
         steps_before = stats.steps
         try:
@@ -650,7 +657,7 @@ def run_task(prop: Any, task: Dict[str, Any]) -> Dict[str, Any]:
 def _regenerate(ws: WrapSys, mode: str, task: Dict[str, Any], cfg: Dict[str, Any], shard: int, i: int, B: int) -> Dict[str, Any]:
     """Determinism probe: re-run the generator for run i; the ops must be identical."""
     rng = util.sub_rng(task["seed"], mode, task["env"], cfg["id"], shard, i)
-    nseg = int(rng.integers(6, 25)) if not cfg.get("drive") else int(rng.integers(120, 200))
+    nseg = int(rng.integers(6, 25)) if not cfg.get("drive") else int(rng.integers(*cfg.get("drive_segments", (120, 200))))
     ops, _ = generate_and_run(ws, mode, mode, rng, B, Stats(), nseg)
     return ops
 
